@@ -57,17 +57,28 @@ def size_terms(v, t, out, ver=None, depth=0):
 
 
 def find_model(ver, ob, extra_sizes=(), extra_constraints=()):
+    for m, b in find_models(ver, ob, extra_sizes, extra_constraints):
+        return m, b
+    return None, "no model"
+
+
+def find_models(ver, ob, extra_sizes=(), extra_constraints=()):
+    """Candidate counterexamples, cheapest query first: the quantifier-free subset of the hypotheses may admit models
+    that the full set excludes, so a candidate that does not reproduce on the real code is followed by the next one."""
     from . import quant
     hyps, pc, goal = build_vc(ver, ob)
     qf, full = quant.prepare(hyps, pc, goal)
+    seen = 0
     for asserts in (qf, full):
         if asserts is None:
             continue
         asserts = list(asserts) + list(extra_constraints)
         m, b = _find_model(ver, asserts, extra_sizes)
         if m is not None:
-            return m, b
-    return None, b
+            seen += 1
+            yield m, b
+    if not seen:
+        return
 
 
 def _find_model(ver, asserts, extra_sizes=()):
@@ -657,19 +668,26 @@ def handle_failure(pid, job, repo, tier):
                 # make the violation unmistakable: a request of at least 16M elements against a bound under 64K
                 cnt, bnd = ob.goal.arg(0), ob.goal.arg(1)
                 model, bound = find_model(ver, ob, extra_constraints=[cnt >= (1 << 24), cnt <= (1 << 27), bnd <= (1 << 16), bnd >= 0])
-            if model is None:
-                model, bound = find_model(ver, ob)
-            if model is None:
-                rec["verdict"] = "no counterexample model available (solver: %s)" % bound
-            else:
+            cands = [(model, bound)] if model is not None else find_models(ver, ob)
+            tried = 0
+            for model, bound in cands:
+                tried += 1
                 rec["shrink_bound"] = bound
                 func = ob.func
-                src = build_test(ver, ob, model, func, job)
+                try:
+                    src = build_test(ver, ob, model, func, job)
+                except (NoReplay, Unsupported) as ex:
+                    rec["verdict"] = "model found but not replayable: %s" % ex
+                    continue
                 rec["test_source"] = src
                 rec["package"] = func.pkg.path
                 rc, out = run_test(src, func.pkg.path, repo)
                 rec["replay_output"] = out[-3000:]
                 rec["reproduced"], rec["verdict"] = verdict(rc, out, ob)
+                if rec["reproduced"]:
+                    break
+            if not tried:
+                rec["verdict"] = "no counterexample model available"
         except (NoReplay, Unsupported) as ex:
             rec["verdict"] = "model found but not replayable: %s" % ex
         except Exception as ex:
